@@ -28,6 +28,9 @@ func (e *Env) drawBuffered(cc ChanCfg) ChanCfg {
 		if e.P(3) == 2 {
 			cc.RBuf = []int{16, 4096}[e.P(2)]
 		}
+	} else if e.P(6) == 5 {
+		cc.Wrap = true // the wrapper without write buffer (what the tcp transport uses by default), sometimes read-buffered
+		cc.RBuf = []int{0, 16, 4096}[e.P(3)]
 	}
 	return cc
 }
